@@ -190,7 +190,9 @@ def run_case(case: dict) -> Outcome:
     if not payload_matches(ref["rest"], got[5]):
         return fail("misdecoded:payload", f"load({line!r}) decoded payload {got[5]!r}, spelled {ref['rest']!r}", classes=classes)
     if verdict == "accept":
-        if gw_invalid and ref["values"][2] != 3:
+        node, child, cmd = ref["values"][0], ref["values"][1], ref["values"][2]
+        converting_handler = cmd == 3 or (cmd == 0 and child == 255 and node == 0)  # payload checked by a handler
+        if gw_invalid and not converting_handler:
             return fail("listen-rejects-wellformed", f"listen on {line!r}: {gw_val!r}", classes=classes)
         if gw_status == "ok" and env.msg_fields(gw_val)[:5] != ref["values"]:
             return fail("listen-misdecoded", f"listen on {line!r} yielded {env.msg_fields(gw_val)}", classes=classes)
